@@ -560,6 +560,9 @@ class ReorgDriver(IndexDriver):
             if state['fired']:
                 return False
             ok = _is_flush_op(tag, detail) if cond == 'flushop' else True
+            if cond == 'blockfile':
+                # a write of a downloaded block's part to its file under meta/blocks
+                ok = tag == 'write' and '/blocks/' in str(detail[0])
             if tag in ('dbcreate', 'mkdir') or '/db/meta' not in w.fs.dirs:
                 ok = False
             if ok:
@@ -1147,6 +1150,18 @@ class UndoFamily(ReorgFamily):
                 plan.append(dict(op='sigterm_when', cond='backup', skip=rng.choice([0, 1, 3, 8]),
                                  window=60.0))
             plan.append(dict(op='open_check'))
+            plan.append(dict(op='sync'))
+            plan.append(dict(op='undo_check'))
+        if rng.random() < 0.3:
+            # a fork within the window whose abandoned blocks have to be downloaded again (a restart removed their
+            # files) while the disk is full for a moment: one part of one downloaded block cannot be written, that
+            # download is given up, the reorganisation stops half-way and has to be taken up again at the next poll
+            plan.append(dict(op='restart'))
+            plan.append(dict(op='sync'))
+            plan.append(dict(op='fork', depth=rng.choice([1, 2, Le, Le]), extra=1, ntx=[2, 3], remine=0.5,
+                             seed=rng.getrandbits(32)))
+            plan.append(dict(op='ioerr_when', cond='blockfile', skip=rng.choice([0, 0, 1, 2, 3, 5]), window=90.0,
+                             prop='C15'))
             plan.append(dict(op='sync'))
             plan.append(dict(op='undo_check'))
         if rng.random() < 0.4:
